@@ -383,6 +383,8 @@ type Answer struct {
 	// NoEvent: do not record the call as an event
 	NoEvent bool
 	Panic   bool
+	// Do: an effect of the callee on the abstract heap of this answer's state (run before Invoke)
+	Do func(st *State)
 }
 
 type Invocation struct {
@@ -1831,6 +1833,9 @@ func (in *Interp) answers(st *State, ctx *CallCtx, ev Event, ans []Answer, k kon
 			s.Events = append(s.Events, Event{Kind: "panic", Note: "oracle: " + a.Label, Pos: ev.Pos, Stack: s.stackString()})
 			k(s, nil, true)
 			continue
+		}
+		if a.Do != nil {
+			a.Do(s)
 		}
 		in.invokeAll(s, a.Invoke, 0, func(s2 *State, _ []AV, p bool) {
 			if p {
